@@ -1,4 +1,4 @@
-import ElvProofs.C20.Inv4
+import ElvProofs.C20.Each
 import ElvProofs.C20.RunParallel
 import ElvProofs.C20.Replay
 /-!
@@ -243,21 +243,145 @@ theorem C20_one_worker_single_exception (c : Cfg) (tr : List Label) (s : State) 
 /-- The full one-worker statement: for a deterministic callback table `cb`, a completed
 uninterrupted run of `peach &num-workers=1` whose callbacks behave as `cb` says has exactly the
 observations of `each` (`eachRun`): same starts in the same order, same outputs in the same
-order, same exceptions.  NOT proved as one statement; what is proved are its ingredients, each
-over all interleavings: callbacks never overlap (`C20_one_worker_no_overlap`), start in input
-order (`C20_one_worker_in_order`), none starts after a break/failure
-(`C20_one_worker_stops_after_bad`), every input before that is started exactly once
-(`C20_exactly_once` when nothing breaks), at most one exception, which is reported
-(`C20_one_worker_single_exception`, `C20_all_exceptions_reported`).  Missing: the list-level
-assembly of these facts into the equality with `eachRun` (a positional invariant on `ws`).
-The equality itself is checked on the real code: the harness runs `each` and
-`peach &num-workers=1` side by side and the driver prints `eachRun` for the correspondence. -/
+order, same exceptions. -/
 def C20_one_worker_eq_each_full : Prop :=
   ∀ (cb : Nat → List Nat × Outcome) (n : Nat) (tr : List Label) (s : State),
     Run { k := some 1, n := n } tr s → s.fpc = .ret → Label.cancel ∉ tr →
     (∀ i o, Label.finish i o ∈ tr → o = (cb i).2) →
     (∀ i, Label.start i ∈ tr → (outsOf tr).filter (·.1 = i) = (cb i).1.map (fun v => (i, v))) →
     ({ starts := startsOf tr, outs := s.outs, err := s.err } : EachObs) = eachRun cb n
+
+/-- `peach &num-workers=1` IS `each`: over every interleaving of feeder and worker goroutines, a
+completed uninterrupted one-worker run has exactly the observations of the sequential `each` —
+the same callbacks started in the same order, the same outputs in the same order, the same
+exception.  Assembled from the positional invariant `inv_one_prefix` (the workers are a prefix of
+cleanly ended callbacks, at most one more, then only skipped inputs), `inv_one_outs_sorted`,
+`inv_skip_broken`, `C20_one_worker_in_order` and the closed form `eachFrom_eq`. -/
+theorem C20_one_worker_eq_each : C20_one_worker_eq_each_full := by
+  intro cb n tr s h hret hnc hfin houts
+  have hk : ({ k := some 1, n := n } : Cfg).k = some 1 := rfl
+  have hre : ({ k := some 1, n := n } : Cfg).recheck = true := rfl
+  have hcan : s.cancelled = false := by
+    cases hc : s.cancelled with
+    | false => rfl
+    | true => exact absurd ((inv_cancelled h).mp hc) hnc
+  have hlen : s.ws.length = n := (inv_ret h).2 (Or.inr hret)
+  have hwg0 := (inv_ret h).1 hret
+  have hwg := inv_wg h
+  have hund : ∀ x ∈ s.ws, WPc.undone x = false := by
+    intro x hx
+    have := (List.countP_eq_zero (p := WPc.undone)).mp (by omega) x hx
+    simpa using this
+  have hpre := inv_one_prefix h hk hre hcan
+  have hmemS : ∀ j, j ∈ startsOf tr ↔ atL s.ws j WPc.started = true := by
+    intro j
+    rw [mem_startsOf, ← List.count_pos_iff, inv_start_count h j]
+    simp only [State.at]
+    cases atL s.ws j WPc.started <;> simp
+  have hord := C20_one_worker_in_order _ tr s h hk (Or.inl rfl)
+  have hst_ns : ∀ j, atL s.ws j WPc.started = true →
+      ∃ x, s.ws[j]? = some x ∧ x ≠ .skipped ∧ x.started = true := by
+    intro j hj
+    unfold atL at hj
+    cases hg : s.ws[j]? with
+    | none => simp [hg] at hj
+    | some x =>
+      simp [hg] at hj
+      exact ⟨x, rfl, by intro hx; subst hx; simp [WPc.started] at hj, hj⟩
+  have hclosed : ∀ j, j ∈ startsOf tr → ∀ i, i < j → i ∈ startsOf tr := by
+    intro j hj i hij
+    rw [hmemS] at hj ⊢
+    obtain ⟨x, hx, hns, _⟩ := hst_ns j hj
+    obtain ⟨o, ho, _⟩ := hpre j x hx hns i hij
+    simp [atL, ho, WPc.started]
+  have hrange := sorted_closed_eq_range (startsOf tr) hord hclosed
+  generalize (startsOf tr).length = p at hrange
+  have hmem : ∀ j, j < p ↔ atL s.ws j WPc.started = true := by
+    intro j; rw [← hmemS, hrange, List.mem_range]
+  -- every callback before the last started one ended without break/failure
+  have hgoodpre : ∀ j, j + 1 < p → ∃ o, s.ws[j]? = some (.exited o) ∧ o.bad = false := by
+    intro j hj
+    obtain ⟨x, hx, hns, _⟩ := hst_ns (j + 1) ((hmem _).mp hj)
+    exact hpre (j + 1) x hx hns j (by omega)
+  have hF2 : ∀ j, 0 ≤ j → j + 1 < 0 + p → (cb j).2.bad = false := by
+    intro j _ hj
+    obtain ⟨o, ho, hb⟩ := hgoodpre j (by omega)
+    rw [← hfin j o (mem_finish_of_at h j o _ ho rfl)]; exact hb
+  have hF1 : p ≤ n := by
+    rcases Nat.eq_zero_or_pos p with h0 | h0
+    · omega
+    · obtain ⟨x, hx, _, _⟩ := hst_ns (p - 1) ((hmem _).mp (by omega))
+      have := getElem?_lt hx
+      omega
+  have hF3 : p < n → 0 < p ∧ (cb (0 + p - 1)).2.bad = true := by
+    intro hpn
+    have hlt : p < s.ws.length := by omega
+    have hgp : s.ws[p]? = some s.ws[p] := List.getElem?_eq_getElem hlt
+    have hnst : atL s.ws p WPc.started = false := by
+      cases hb : atL s.ws p WPc.started with
+      | false => rfl
+      | true => have := (hmem p).mpr hb; omega
+    have hu := hund _ (List.getElem_mem hlt)
+    rw [atL_of_getElem? s.ws p _ _ hgp] at hnst
+    have hsk : WPc.isSkipped s.ws[p] = true := by
+      cases hy : s.ws[p] <;> simp_all [WPc.started, WPc.undone, WPc.isSkipped]
+    have hbr := inv_skip_broken h hcan (cnt_pos WPc.isSkipped s.ws p _ hgp hsk)
+    have hbm := (inv_broken h).1 hbr
+    obtain ⟨x, hxm, hxb⟩ := List.countP_pos_iff.mp hbm
+    obtain ⟨b, hb⟩ := List.mem_iff_getElem?.mp hxm
+    have hxs : x.started = true := by cases x <;> simp_all [WPc.badMarked, WPc.started]
+    have hbp : b < p := (hmem b).mpr (by rw [atL_of_getElem? s.ws b x _ hb]; exact hxs)
+    have hbl : b = p - 1 := by
+      rcases Nat.lt_or_ge (b + 1) p with h1 | h1
+      · obtain ⟨o, ho, hob⟩ := hgoodpre b h1
+        rw [hb] at ho; cases ho
+        simp [WPc.badMarked, hob] at hxb
+      · omega
+    refine ⟨by omega, ?_⟩
+    have hidx : 0 + p - 1 = b := by omega
+    rw [hidx]
+    cases x with
+    | marked o => rw [← hfin b o (mem_finish_of_at h b o _ hb rfl)]; simpa [WPc.badMarked] using hxb
+    | doneW o => rw [← hfin b o (mem_finish_of_at h b o _ hb rfl)]; simpa [WPc.badMarked] using hxb
+    | exited o => rw [← hfin b o (mem_finish_of_at h b o _ hb rfl)]; simpa [WPc.badMarked] using hxb
+    | _ => simp [WPc.badMarked] at hxb
+  unfold eachRun
+  rw [eachFrom_eq cb n 0 p hF1 hF2 hF3]
+  have hstarts : startsOf tr = List.range' 0 p := by rw [hrange, List.range_eq_range']
+  have houtsEq : s.outs = (List.range' 0 p).flatMap (fun j => (cb j).1.map (fun v => (j, v))) := by
+    apply sorted_eq_flatMap _ p 0 s.outs (inv_one_outs_sorted h hk hre hcan)
+    · intro x hx
+      have := inv_outs_started h x.1 x.2 hx
+      exact ⟨Nat.zero_le _, by have := (hmem x.1).mpr this; omega⟩
+    · intro i _ hi
+      have hsi : Label.start i ∈ tr := (mem_startsOf tr i).mp ((hmemS i).mpr ((hmem i).mp (by omega)))
+      rw [inv_outs h]; exact houts i hsi
+  have herrEq : s.err = (List.range' 0 p).filter (fun j => decide ((cb j).2 = .exc)) := by
+    have hlen1 := C20_one_worker_single_exception _ tr s h hk hre (Or.inl rfl)
+    apply sorted_ext
+    · match hs : s.err, hlen1 with
+      | [], _ => exact List.Pairwise.nil
+      | [a], _ => simp
+      | _ :: _ :: _, hl => simp at hl
+    · rw [← List.range_eq_range']; exact List.pairwise_lt_range.filter _
+    · intro i
+      rw [← (C20_all_exceptions_reported _ tr s h hret i).1, List.mem_filter, ← List.range_eq_range',
+        List.mem_range]
+      constructor
+      · intro hm
+        obtain ⟨x, hx, hxo⟩ := finish_at h i .exc hm
+        refine ⟨(hmem i).mpr ?_, by simp [← hfin i .exc hm]⟩
+        rw [atL_of_getElem? s.ws i x _ hx]
+        cases x <;> simp_all [WPc.outcome, WPc.started]
+      · rintro ⟨hi, he⟩
+        obtain ⟨x, hx, _, hxs⟩ := hst_ns i ((hmem i).mp hi)
+        have hu := hund x (List.mem_of_getElem? hx)
+        have he' : (cb i).2 = .exc := by simpa using he
+        cases x with
+        | doneW o => have := mem_finish_of_at h i o _ hx rfl; rw [hfin i o this, he'] at this; exact this
+        | exited o => have := mem_finish_of_at h i o _ hx rfl; rw [hfin i o this, he'] at this; exact this
+        | _ => simp_all [WPc.started, WPc.undone]
+  rw [hstarts, houtsEq, herrEq]
 
 /-! ### run-parallel -/
 
@@ -375,6 +499,31 @@ example : ∃ s, Run { k := some 1, n := 2 } C20.sample1 s ∧ s.fpc = .ret ∧
 example : ∃ s s', Run { k := some 1, n := 2 } (C20.sample1.take 14) s ∧
     step { k := some 1, n := 2 } s (.start 1) = some s' :=
   ⟨_, _, run_of_replay rfl, rfl⟩
+
+/-- a completed one-worker run in which callback 1 fails while the feeder waits for the permit for
+input 2, which is then skipped (hypotheses of `C20_one_worker_eq_each`; both sides are the
+non-trivial observation `starts = [0, 1]`, two outputs, `err = [1]`) -/
+def C20.sample2 : List Label :=
+  [.chk1 false, .acqOk, .chk2 false, .spawn, .chk1 false, .start 0, .out 0 0, .finish 0 .cont, .done 0,
+   .release 0, .acqOk, .chk2 false, .spawn, .chk1 false, .start 1, .out 1 7, .finish 1 .exc, .mark 1,
+   .done 1, .release 1, .acqOk, .chk2 true, .frel, .eof, .waitRet]
+
+def C20.sampleCb : Nat → List Nat × Outcome
+  | 0 => ([0], .cont)
+  | 1 => ([7], .exc)
+  | _ => ([], .ok)
+
+example : ∃ s, Run { k := some 1, n := 3 } C20.sample2 s ∧ s.fpc = .ret ∧ Label.cancel ∉ C20.sample2 ∧
+    (∀ i o, Label.finish i o ∈ C20.sample2 → o = (C20.sampleCb i).2) ∧
+    (∀ i, Label.start i ∈ C20.sample2 →
+      (outsOf C20.sample2).filter (·.1 = i) = (C20.sampleCb i).1.map (fun v => (i, v))) ∧
+    ({ starts := startsOf C20.sample2, outs := s.outs, err := s.err } : EachObs) =
+      { starts := [0, 1], outs := [(0, 0), (1, 7)], err := [1] } ∧
+    eachRun C20.sampleCb 3 = { starts := [0, 1], outs := [(0, 0), (1, 7)], err := [1] } :=
+  ⟨_, run_of_replay rfl, rfl, by decide,
+    by intro i o hm; simp [C20.sample2] at hm; rcases hm with ⟨rfl, rfl⟩ | ⟨rfl, rfl⟩ <;> rfl,
+    by intro i hm; simp [C20.sample2] at hm; rcases hm with rfl | rfl <;> rfl,
+    rfl, rfl⟩
 
 /-- an interrupted run of the fixed code: `Acquire` fails after `cancel`, the input is skipped -/
 example : ∃ s, Run { k := some 1, n := 2 }
